@@ -429,12 +429,23 @@ fn random_cases(unbacked_only: bool) -> BoxedStrategy<ByteCase> {
     let model_base = file_model(4, 4, 6).prop_map(Base::Model);
     if unbacked_only {
         return (file_model(3, 3, 4), proptest::collection::vec(unbacked_mut(3), 1..3))
-            .prop_filter_map("needs a multi-vertex record", |(m, muts)| {
-                if m.recs.iter().any(|r| !matches!(r.geom.ty.family(), Family::Point | Family::Null)) {
-                    Some(ByteCase { base: Base::Model(m), muts })
-                } else {
-                    None
+            .prop_map(|(mut m, muts)| {
+                // the mutations need a multi-vertex record to act on: a model without one (point / null header
+                // types, empty files) gets a fixed two-part PolylineZ record instead of being rejected
+                if !m.recs.iter().any(|r| !matches!(r.geom.ty.family(), Family::Point | Family::Null)) {
+                    let g = Geom {
+                        ty: Ty::PolylineZ,
+                        parts: vec![
+                            Part { kind: 0, pts: vec![v4(1.0, 2.0, 3.0, 4.0), v4(2.0, 3.0, 4.0, 5.0), v4(0.5, 0.25, -1.0, 7.0)] },
+                            Part { kind: 0, pts: vec![v4(-1.0, -2.0, 0.0, 1.0), v4(-2.0, -3.0, 1.0, 2.0)] },
+                        ],
+                        bbox: [F(0); 8],
+                        m_present: true,
+                    }
+                    .canon_file();
+                    m = vlib::refcodec::FileModel::simple(Ty::PolylineZ, vec![g]);
                 }
+                ByteCase { base: Base::Model(m), muts }
             })
             .boxed();
     }
